@@ -327,6 +327,10 @@ def run_invalid(combo1, bad, trailing, combo2, split_second):
     p1, d1 = build(combo1)
     p2, d2 = build(combo2)
     rec = Recorder()
+    # a second parser instance in the same process that knows the bad byte as a vendor packet type:
+    # instances must not share their extension tables
+    decoy = PacketParser(Recorder())
+    decoy.extended_packet_info[bad] = (1, 1, 'B')
     parser = PacketParser(rec)
     raised = False
     try:
